@@ -95,15 +95,23 @@ def gate():
 
 
 class CoqLock:
+    """Exclusive lock on the shared Coq build tree (Gen/, .vo files, drivers).  Re-entrant within a process."""
+    depth = 0
+    fh = None
+
     def __enter__(self):
-        os.makedirs(BUILD, exist_ok=True)
-        self.fh = open(os.path.join(BUILD, ".coq.lock"), "w")
-        fcntl.flock(self.fh, fcntl.LOCK_EX)
+        if CoqLock.depth == 0:
+            os.makedirs(BUILD, exist_ok=True)
+            CoqLock.fh = open(os.path.join(BUILD, ".coq.lock"), "w")
+            fcntl.flock(CoqLock.fh, fcntl.LOCK_EX)
+        CoqLock.depth += 1
         return self
 
     def __exit__(self, *a):
-        fcntl.flock(self.fh, fcntl.LOCK_UN)
-        self.fh.close()
+        CoqLock.depth -= 1
+        if CoqLock.depth == 0:
+            fcntl.flock(CoqLock.fh, fcntl.LOCK_UN)
+            CoqLock.fh.close()
 
 
 def regen(modules):
@@ -398,20 +406,26 @@ class Check:
             if own:
                 raise MachineryError("gate: " + "; ".join(own[:5]))
             self.say(f"[{self.pid}] gate warning (files outside this property's cone): " + "; ".join(problems[:3]))
-        pinfo = self.proofs(tier)
-        self.say(f"[{self.pid}] proofs: obligations={pinfo.get('obligations')} discharged={pinfo.get('discharged')} "
-                 f"axioms={pinfo.get('axioms')} broken={pinfo['broken']}")
         model = None
         corr_broken = []
-        if pinfo["model_ok"] and self.extract_v:
-            with CoqLock():
+        # one lock over regeneration, proof build and extraction: another check (possibly against a different
+        # VERIF_REPO) must not regenerate a shared Gen file in between
+        with CoqLock():
+            pinfo = self.proofs(tier)
+            self.say(f"[{self.pid}] proofs: obligations={pinfo.get('obligations')} discharged={pinfo.get('discharged')} "
+                     f"axioms={pinfo.get('axioms')} broken={pinfo['broken']}")
+            if pinfo["model_ok"] and self.extract_v:
                 exe, err = build_driver(self.pid, self.extract_v, self.driver_ml)
-            if exe is None:
-                corr_broken.append(err[-600:])
-            else:
-                model = ModelProc(exe)
-        elif self.extract_v:
-            corr_broken.append("model not available (does not compile)")
+                if exe is None:
+                    corr_broken.append(err[-600:])
+                else:
+                    # private copy: a later build of the same property (other seed / other tree) cannot swap it under us
+                    priv = exe + ".%d" % os.getpid()
+                    sh(["cp", exe, priv], 30)
+                    model = ModelProc(priv)
+                    self._priv_driver = priv
+            elif self.extract_v:
+                corr_broken.append("model not available (does not compile)")
 
         state = {"model": model}
         ev = {"evaluations": 0, "distinct": set(), "samples": [], "dist": {}, "corr_compared": 0}
@@ -470,6 +484,11 @@ class Check:
                     break
         if model is not None:
             model.close()
+        if getattr(self, "_priv_driver", None):
+            try:
+                os.remove(self._priv_driver)
+            except OSError:
+                pass
 
         # ---- verdict ----
         os.makedirs(REPLAYS, exist_ok=True)
